@@ -55,6 +55,9 @@ def gen_cases(seed, tier):
     for j in range(90 if tier == 'quick' else 6000):
         out.append({'kind': 'add_many', 'seed': int(rng.integers(1 << 62)),
             'trunc_freq': [3, 5, 15][j % 3], 'cancel': True})
+    for j in range(60 if tier == 'quick' else 4000):
+        out.append({'kind': 'add_many', 'seed': int(rng.integers(1 << 62)),
+            'trunc_freq': [1, 2, 15][j % 3], 'perturbed': True})
     return out
 
 
@@ -216,6 +219,11 @@ def run_trunc(case, ctx):
     shape_spectrum(Y, case['spectrum'], rng)
     if rng.random() < 0.6:
         Y[int(rng.integers(len(Y)))] *= 10.0 ** int(rng.integers(-6, 7))
+    elif rng.random() < 0.3 and len(Y) >= 3:
+        # the whole scale of a tiny tensor sitting in one LATE core
+        # (1e-101..1e-140, below the threshold of the stabilised sweeps)
+        Y[int(rng.integers(2, len(Y)))] *= 10.0 ** -int(rng.integers(101, 141))
+        ctx.event('tiny-scale-in-a-late-core')
     n = info['n']
     d = len(n)
     f = input_facts(Y)
@@ -329,6 +337,28 @@ def run_add_many(case, ctx):
         e = float(10.0 ** rng.uniform(-9, -4))
         cap = rT + int(rng.integers(1, 3))
         ctx.event('add_many-cancelling-summands')
+    elif case.get('perturbed'):
+        # -A, A + dB (the second summand is NOT exactly of low rank and is far
+        # larger than the sum): the rounding steps are relative to the partial
+        # sums, a summand is never rounded on its own
+        n = gen.rand_shape(rng, 3, 4, 3, 4)
+        d = len(n)
+        A_ = gen.cores(rng, n, gen.rand_ranks(rng, d, 2), 'normal')
+        B_ = gen.cores(rng, n, gen.rand_ranks(rng, d, 3, 2), 'normal')
+        e = float(10.0 ** rng.uniform(-4, -2))
+        B_[0] *= e * float(10.0 ** rng.uniform(-1.5, -0.5))
+        Am = [G.copy() for G in A_]
+        Am[int(rng.integers(d))] *= -1.
+        AB_ = teneva.add(A_, B_)
+        items = [Am, AB_] if rng.random() < 0.5 else [AB_, Am]
+        for _ in range(int(rng.integers(0, 3))):
+            Z_ = gen.cores(rng, n, gen.rand_ranks(rng, d, 2), 'normal')
+            Z_[0] *= float(np.linalg.norm(B_[0])) * 0.1
+            items.insert(int(rng.integers(len(items) + 1)), Z_)
+        dense = [np.asarray(ref.dense_ld(Y), dtype=float) for Y in items]
+        m = len(items)
+        cap = 1e12
+        ctx.event('add_many-large-summands-small-sum')
     eo = np.array(e) if rng.random() < 0.3 else e
     _state['nested'] += 1
     try:
